@@ -246,6 +246,10 @@ def adjust_leftover_buffer(buffers: deque[memoryview], nbytes: int) -> None:
         else:
             buffers.appendleft(b[nbytes:])
             break
+    # Discard the empty buffers left at the head: there is nothing to send from them, and a sendmsg() call
+    # that only gets empty buffers reports 0 byte sent, so a "while buffers:" loop would never make progress.
+    while buffers and not buffers[0].nbytes:
+        del buffers[0]
 
 
 def is_socket_connected(sock: ISocket) -> bool:
